@@ -1235,3 +1235,86 @@ func (c *Corpus) WordSweepLong(seed []byte, maxPos int) (out [][]byte) {
 	}
 	return
 }
+
+// TextVariants returns, for a seed that is mostly lines of text (SIP and other header-style protocols), the variants a
+// line-oriented parser has to survive: each token of each line deleted, each line cut behind each of its separators,
+// each line removed, emptied after the colon, or doubled. Nothing is returned for binary seeds.
+func (c *Corpus) TextVariants(seed []byte, maxOut int) (out [][]byte) {
+	if len(seed) < 8 || len(seed) > 4096 {
+		return nil
+	}
+	printable := 0
+	for _, b := range seed {
+		if b >= 0x20 && b < 0x7f || b == '\r' || b == '\n' || b == '\t' {
+			printable++
+		}
+	}
+	if printable*10 < len(seed)*9 || !bytes.Contains(seed, []byte("\n")) {
+		return nil
+	}
+	lines := bytes.SplitAfter(seed, []byte("\n"))
+	join := func(i int, repl ...[]byte) []byte {
+		var b []byte
+		for j, l := range lines {
+			if j == i {
+				for _, r := range repl {
+					b = append(b, r...)
+				}
+				continue
+			}
+			b = append(b, l...)
+		}
+		return b
+	}
+	add := func(b []byte) bool {
+		out = append(out, b)
+		return len(out) < maxOut
+	}
+	for i, l := range lines {
+		if i > 40 {
+			break
+		}
+		body := bytes.TrimRight(l, "\r\n")
+		eol := l[len(body):]
+		if !add(join(i)) || !add(join(i, l, l)) {
+			return
+		}
+		if k := bytes.IndexByte(body, ':'); k >= 0 {
+			if !add(join(i, body[:k+1], eol)) || !add(join(i, body[:k+1], []byte(" "), eol)) {
+				return
+			}
+		}
+		// tokens separated by blanks: each one deleted (with the blank in front of it when it is not the first)
+		toks := bytes.Fields(body)
+		if len(toks) > 1 && len(toks) <= 12 {
+			for t := range toks {
+				var nb []byte
+				for u, tok := range toks {
+					if u == t {
+						continue
+					}
+					if len(nb) > 0 {
+						nb = append(nb, ' ')
+					}
+					nb = append(nb, tok...)
+				}
+				if !add(join(i, nb, eol)) {
+					return
+				}
+			}
+		}
+		for k, ch := range body {
+			if ch == ' ' || ch == ':' || ch == ';' || ch == '=' || ch == ',' || ch == '/' || ch == '<' || ch == '@' {
+				if !add(join(i, body[:k], eol)) || !add(join(i, body[:k+1], eol)) {
+					return
+				}
+			}
+		}
+		if len(eol) == 2 {
+			if !add(join(i, body, []byte("\r"))) || !add(join(i, body, []byte("\n"))) {
+				return
+			}
+		}
+	}
+	return
+}
